@@ -31,6 +31,7 @@ type tunit struct {
 	imports []string
 	funcs   []tfunc
 	consts  []string // files whose string constants are emitted
+	vars    []tfunc  // package-level variables (a value, or a function literal whose body is one return statement)
 }
 
 var translationUnits = []tunit{
@@ -44,7 +45,8 @@ var translationUnits = []tunit{
 		{"internal/server/authz.go", "matchTriggerRule"},
 		{"internal/server/authz.go", "mustTriggerCheck"},
 		{"internal/server/authz.go", "matches"},
-	}},
+		{"internal/server/authz.go", "ExtAuthZFilter.Check"},
+	}, vars: []tfunc{{"internal/server/authz.go", "allow"}, {"internal/server/authz.go", "deny"}}},
 	{module: "CodeOidc", imports: []string{"AuthModel.Generated.CodeHttp"}, funcs: []tfunc{
 		{"internal/authz/oidc.go", "getCookieName"},
 		{"internal/authz/oidc.go", "getCookieDirectives"},
@@ -68,11 +70,21 @@ var typeTable = map[string]string{
 	"*envoy.CheckRequest": "Pb.CheckRequest", "*envoy.AttributeContext_HttpRequest": "Pb.AttributeContext_HttpRequest",
 	"*oidcv1.OIDCConfig": "Pb.OIDCConfig", "*idpTokensResponse": "Pb.IdpTokensResponse",
 	"*oidc.TokenResponse": "Pb.TokenResponse", "*oidcHandler": "Pb.OidcHandler",
+	"*envoy.CheckResponse": "Pb.CheckResponse", "authz.Handler": "Pb.Handler", "*ExtAuthZFilter": "Pb.ExtAuthZFilter",
+	"*status.Status": "Pb.Status", "codes.Code": "Int",
 }
 
 var zeroTable = map[string]string{
 	"Str": "[]", "Int": "0", "Bool": "false", "List Str": "[]", "Go.Map": "Go.Map.empty", "Go.Error": "{}",
+	"Pb.CheckResponse": "{ isNil := true }", "Pb.Handler": "{ isNil := true }",
 }
+
+// gRPC status codes (google.golang.org/grpc/codes)
+var grpcCodes = map[string]int{"OK": 0, "Unknown": 2, "InvalidArgument": 3, "PermissionDenied": 7, "Internal": 13, "Unauthenticated": 16}
+
+// methods that write through a pointer argument: the translation returns the new value of that argument together with the
+// method's own result.  name -> (index of the mutated argument in the Go call, the arguments passed on)
+var mutatingMethods = map[string]int{"Process": 2}
 
 // library calls: Go name -> (Lean function, monadic?)
 type libfn struct {
@@ -134,6 +146,8 @@ type tctx struct {
 	resNames []string
 	fd       *ast.FuncDecl
 	used     map[string]int // identifier uses outside dropped statements
+	tmp      int
+	resTypes []string // Lean result types, for typed nil in return statements
 }
 
 func typeStr(e ast.Expr) string { return strings.Join(strings.Fields(src(e)), "") }
@@ -207,6 +221,15 @@ func (c *tctx) countUses(n ast.Node) {
 		if as, ok := m.(*ast.AssignStmt); ok && (as.Tok == token.ADD_ASSIGN) {
 			if id, ok := as.Lhs[0].(*ast.Ident); ok {
 				c.assigned[id.Name] = true
+			}
+		}
+		if call, ok := m.(*ast.CallExpr); ok {
+			if sel, ok := call.Fun.(*ast.SelectorExpr); ok {
+				if ai, ok := mutatingMethods[sel.Sel.Name]; ok && ai < len(call.Args) {
+					if id, ok := call.Args[ai].(*ast.Ident); ok {
+						c.assigned[id.Name] = true
+					}
+				}
 			}
 		}
 		if id, ok := m.(*ast.Ident); ok {
@@ -352,6 +375,24 @@ func (c *tctx) expr(e ast.Expr) string {
 			return "(!" + c.expr(x.X) + ")"
 		case token.SUB:
 			return "(-" + c.expr(x.X) + ")"
+		case token.AND:
+			if cl, ok := x.X.(*ast.CompositeLit); ok && cl.Type != nil {
+				if lt, ok := typeTable["*"+typeStr(cl.Type)]; ok {
+					if len(cl.Elts) == 0 {
+						return lt + ".new"
+					}
+					var fs []string
+					for _, el := range cl.Elts {
+						kv, ok := el.(*ast.KeyValueExpr)
+						if !ok {
+							fail(e, "positional composite literal")
+						}
+						fs = append(fs, lname(typeStr(kv.Key))+" := "+c.expr(kv.Value))
+					}
+					return "({ " + strings.Join(fs, ", ") + " } : " + lt + ")"
+				}
+			}
+			fail(e, "address-of outside the translated subset (only &T{} of a mirrored message type)")
 		}
 		fail(e, "unary operator outside the translated subset")
 	case *ast.BinaryExpr:
@@ -436,7 +477,13 @@ func (c *tctx) expr(e ast.Expr) string {
 				return x.Sel.Name
 			}
 		}
-		return "(← (" + c.expr(x.X) + ")." + x.Sel.Name + "!)"
+		if id, ok := x.X.(*ast.Ident); ok && id.Name == "codes" && !c.isLocal("codes") {
+			if v, ok := grpcCodes[x.Sel.Name]; ok {
+				return fmt.Sprintf("(%d : Int)", v)
+			}
+			fail(e, "gRPC code outside the table")
+		}
+		return "(← (" + c.expr(x.X) + ")." + lname(x.Sel.Name) + "!)"
 	case *ast.CallExpr:
 		return c.call(x)
 	}
@@ -481,6 +528,18 @@ func (c *tctx) call(x *ast.CallExpr) string {
 		return "(env.regexpMatch " + c.args(x.Args) + ")"
 	case "url.Parse":
 		return "(env.urlParse " + c.args(x.Args) + ")"
+	case "authz.NewMockHandler":
+		return "(handlers.newMock " + c.expr(x.Args[0]) + ")"
+	case "authz.NewOIDCHandler":
+		// the collaborators handed over (pool, key provider, store factory, clock, generator) are the filter's own, fixed at
+		// construction (F8): what varies from call to call is the configuration
+		return "(handlers.newOIDC " + c.expr(x.Args[0]) + ")"
+	case "codes.Code", "int32":
+		return c.expr(x.Args[0])
+	case "deny":
+		if !c.isLocal("deny") {
+			return "(deny " + c.args(x.Args) + ")"
+		}
 	case "make":
 		if len(x.Args) >= 1 && strings.HasPrefix(typeStr(x.Args[0]), "map[string]string") {
 			return "Go.Map.empty"
@@ -613,9 +672,15 @@ func (c *tctx) retExpr(rs []ast.Expr, n ast.Node) string {
 	var es []string
 	for i, r := range rs {
 		if id, ok := r.(*ast.Ident); ok && id.Name == "nil" {
-			// nil for an error result
-			_ = i
-			es = append(es, "({} : Go.Error)")
+			lt := "Go.Error"
+			if i < len(c.resTypes) {
+				lt = c.resTypes[i]
+			}
+			if lt == "Go.Error" {
+				es = append(es, "({} : Go.Error)")
+			} else {
+				es = append(es, "({ isNil := true } : "+lt+")")
+			}
 			continue
 		}
 		es = append(es, c.expr(r))
@@ -796,6 +861,65 @@ func (c *tctx) assign(o *out, ind int, x *ast.AssignStmt) {
 	}
 	if x.Tok != token.DEFINE && x.Tok != token.ASSIGN {
 		fail(x, "assignment operator outside the translated subset")
+	}
+	// err = h.Process(ctx, req, resp): the method writes through its pointer argument
+	if len(x.Rhs) == 1 && len(x.Lhs) == 1 {
+		if call, ok := x.Rhs[0].(*ast.CallExpr); ok {
+			if sel, ok := call.Fun.(*ast.SelectorExpr); ok {
+				if ai, ok := mutatingMethods[sel.Sel.Name]; ok && ai < len(call.Args) {
+					target, ok1 := call.Args[ai].(*ast.Ident)
+					res, ok2 := x.Lhs[0].(*ast.Ident)
+					if !ok1 || !ok2 {
+						fail(x, "mutating method call with a non-identifier argument or result")
+					}
+					c.tmp++
+					t1, t2 := fmt.Sprintf("%s__%d", lname(target.Name), c.tmp), fmt.Sprintf("%s__%d", lname(res.Name), c.tmp)
+					var as []string
+					for _, a := range call.Args {
+						if typeStr(a) == "ctx" || c.isLoggerExpr(a) {
+							continue
+						}
+						as = append(as, c.expr(a))
+					}
+					o.line(ind, "let ("+t1+", "+t2+") ← ("+c.expr(sel.X)+")."+sel.Sel.Name+"! "+strings.Join(as, " "))
+					o.line(ind, lname(target.Name)+" := "+t1)
+					if x.Tok == token.DEFINE {
+						c.declare(o, ind, res.Name, "error", t2)
+					} else {
+						o.line(ind, lname(res.Name)+" := "+t2)
+					}
+					return
+				}
+			}
+		}
+	}
+	// h, err = f(...): re-assignment of existing variables from a tuple
+	if len(x.Rhs) == 1 && len(x.Lhs) > 1 && x.Tok == token.ASSIGN {
+		c.tmp++
+		var tmps []string
+		for _, l := range x.Lhs {
+			id, ok := l.(*ast.Ident)
+			if !ok {
+				fail(x, "tuple assignment to a non-identifier")
+			}
+			if id.Name == "_" {
+				tmps = append(tmps, "_")
+			} else {
+				tmps = append(tmps, fmt.Sprintf("%s__%d", lname(id.Name), c.tmp))
+			}
+		}
+		rhs := c.expr(x.Rhs[0])
+		arrow := ":="
+		if strings.HasPrefix(rhs, "(← ") && strings.HasSuffix(rhs, ")") {
+			rhs, arrow = rhs[len("(← "):len(rhs)-1], "←"
+		}
+		o.line(ind, "let ("+strings.Join(tmps, ", ")+") "+arrow+" "+rhs)
+		for i, l := range x.Lhs {
+			if id := l.(*ast.Ident); id.Name != "_" {
+				o.line(ind, lname(id.Name)+" := "+tmps[i])
+			}
+		}
+		return
 	}
 	if len(x.Rhs) == 1 && len(x.Lhs) > 1 {
 		// tuple result of one call
@@ -1069,6 +1193,7 @@ func translateFunc(all map[string]*ast.FuncDecl, consts map[string]bool, fd *ast
 			}
 		}
 	}
+	c.resTypes = rts
 	rt := "Unit"
 	if len(rts) == 1 {
 		rt = rts[0]
@@ -1079,7 +1204,11 @@ func translateFunc(all map[string]*ast.FuncDecl, consts map[string]bool, fd *ast
 		rt = "(" + strings.Join(rts, " × ") + ")"
 	}
 	var o out
-	o.line(0, "def "+lname(shortName(funcName(fd)))+" (env : Go.Env) "+strings.Join(params, " ")+" : Go.M "+rt+" := do")
+	extra := ""
+	if strings.Contains(src(fd.Body), "authz.NewOIDCHandler") || strings.Contains(src(fd.Body), "authz.NewMockHandler") {
+		extra = "(handlers : Pb.Handlers) "
+	}
+	o.line(0, "def "+lname(shortName(funcName(fd)))+" (env : Go.Env) "+extra+strings.Join(params, " ")+" : Go.M "+rt+" := do")
 	o.line(1, "let _ := env")
 	if fd.Type.Results != nil {
 		for _, r := range fd.Type.Results.List {
@@ -1099,6 +1228,62 @@ func translateFunc(all map[string]*ast.FuncDecl, consts map[string]bool, fd *ast
 		o.line(1, "return ()")
 	}
 	return o.sb.String(), ""
+}
+
+// translateVar: a package-level variable holding a value, or a function literal whose body is a single return of a value
+func translateVar(all map[string]*ast.FuncDecl, consts map[string]bool, f *ast.File, name string) (code string, err string) {
+	defer func() {
+		if r := recover(); r != nil {
+			if te, ok := r.(terr); ok {
+				err = te.msg
+				return
+			}
+			panic(r)
+		}
+	}()
+	for _, d := range f.Decls {
+		gd, ok := d.(*ast.GenDecl)
+		if !ok || gd.Tok != token.VAR {
+			continue
+		}
+		for _, sp := range gd.Specs {
+			vs := sp.(*ast.ValueSpec)
+			for i, nm := range vs.Names {
+				if nm.Name != name || i >= len(vs.Values) {
+					continue
+				}
+				c := &tctx{funcs: all, consts: consts, loggers: map[string]bool{}, builders: map[string]bool{}, types: map[string]string{},
+					assigned: map[string]bool{}, used: map[string]int{}}
+				if fl, ok := vs.Values[i].(*ast.FuncLit); ok {
+					if len(fl.Body.List) != 1 {
+						fail(fl, "function value with more than one statement")
+					}
+					ret, ok := fl.Body.List[0].(*ast.ReturnStmt)
+					if !ok || len(ret.Results) != 1 || fl.Type.Results == nil || len(fl.Type.Results.List) != 1 {
+						fail(fl, "function value that is not a single return of one value")
+					}
+					var params []string
+					for _, p := range fl.Type.Params.List {
+						for _, pn := range p.Names {
+							c.types[pn.Name] = typeStr(p.Type)
+							params = append(params, "("+lname(pn.Name)+" : "+c.leanType(p.Type)+")")
+						}
+					}
+					body := c.expr(ret.Results[0])
+					if strings.Contains(body, "(← ") {
+						fail(fl, "function value with a partial operation")
+					}
+					return "def " + lname(name) + " " + strings.Join(params, " ") + " : " + c.leanType(fl.Type.Results.List[0].Type) + " := " + body + "\n", ""
+				}
+				body := c.expr(vs.Values[i])
+				if strings.Contains(body, "(← ") {
+					fail(vs, "package-level value with a partial operation")
+				}
+				return "def " + lname(name) + " := " + body + "\n", ""
+			}
+		}
+	}
+	return "", "the variable no longer exists"
 }
 
 func translateAll(repo, outDir string) {
@@ -1147,6 +1332,14 @@ func translateAll(repo, outDir string) {
 				sb.WriteString("def " + lname(k) + " : Str := " + strLit(constVals[cf][k]) + "\n")
 			}
 			sb.WriteString("\n")
+		}
+		for _, tv := range u.vars {
+			code, err := translateVar(all, consts, get(tv.file), tv.name)
+			if err != "" {
+				sb.WriteString("/- NOT TRANSLATED " + tv.file + " var " + tv.name + ": " + strings.ReplaceAll(err, "-/", "- /") + " -/\n\n")
+				continue
+			}
+			sb.WriteString("/-- " + tv.file + ": var " + tv.name + " -/\n" + code + "\n")
 		}
 		for _, tf := range u.funcs {
 			fd := findFunc(get(tf.file), tf.name)
